@@ -26,7 +26,8 @@ abbrev W (mem : Mem) (p : BitVec 64) : BitVec 64 := Mem.load64 mem p
 
 /-- `list_insert`: `if (list->head) list->tail->next = node; else list->head = node; list->tail = node;` -/
 theorem insert_generated (list node : BitVec 64) (mem : Mem) (p : BitVec 64)
-    (h1 : sep p list = true) (h2 : sep p (list + 8#64) = true) (h3 : (W mem list == 0#64 || sep p (W mem (list + 8#64))) = true) :
+    (h1 : sep p list = true) (h2 : sep p (list + 8#64) = true) (h3 : (W mem list == 0#64 || sep p (W mem (list + 8#64))) = true)
+    (h4 : sep p node = true) (hnn : W mem node = 0#64) :
     (list_insert list node mem).ub = false ∧ (list_insert list node mem).exh = false ∧
     W (list_insert list node mem).mem p =
       (if p = list + 8#64 then node
@@ -39,7 +40,7 @@ theorem insert_generated (list node : BitVec 64) (mem : Mem) (p : BitVec 64)
 
 /-- `list_push`: `if (list->head) node->next = list->head; else list->tail = node; list->head = node;` -/
 theorem push_generated (list node : BitVec 64) (mem : Mem) (p : BitVec 64)
-    (h1 : sep p list = true) (h2 : sep p (list + 8#64) = true) (h3 : sep p node = true) :
+    (h1 : sep p list = true) (h2 : sep p (list + 8#64) = true) (h3 : sep p node = true) (hnn : W mem node = 0#64) :
     (list_push list node mem).ub = false ∧ (list_push list node mem).exh = false ∧
     W (list_push list node mem).mem p =
       (if p = list then node
@@ -94,7 +95,9 @@ theorem iterator_insert_generated (iter node : BitVec 64) (mem : Mem) (p : BitVe
     (h1 : sep p (W mem iter) = true) (h2 : sep p node = true)
     (h3 : (W mem (W mem iter) != 0#64 || sep p (W mem (iter + 8#64) + 8#64)) = true)
     (h4 : sep (iter + 8#64) (W mem iter) = true) (h5 : sep (iter + 8#64) node = true)
-    (h6 : iter + 8#64 ≠ W mem iter) (h7 : iter + 8#64 ≠ node) :
+    (h6 : iter + 8#64 ≠ W mem iter) (h7 : iter + 8#64 ≠ node)
+    -- the API's precondition (`assert(NULL == node->next)`) and scope (the node is not the one the iterator hangs off)
+    (hnn : W mem node = 0#64) (hs : sep (W mem iter) node = true) (hne : W mem iter ≠ node) :
     (list_iterator_insert iter node mem).ub = false ∧ (list_iterator_insert iter node mem).exh = false ∧
     W (list_iterator_insert iter node mem).mem p =
       (if W mem (W mem iter) = 0#64 ∧ p = W mem (iter + 8#64) + 8#64 then node
@@ -309,8 +312,17 @@ theorem insert_tie (L : Lay) (hL : L.WF) (mem : Mem) (h : Heap) (hR : Rep L mem 
   have hTail := hR (.tail l) hl
   rw [← A_tail L hL l hl] at hTail
   simp only [val] at hHead hTail
-  have g0 := insert_generated (L.A (.head l)) (L.A (.next n)) mem (L.A (.head l)) (A_sep L hL _ _ hl hl)
-    (by rw [A_tail L hL l hl]; exact A_sep L hL (.head l) (.tail l) hl hl)
+  have hnone : h.next n = none := by
+    cases e : h.next n with
+    | none => rfl
+    | some m =>
+      unfold Librfn.Model.ListHeap.insert at hok
+      rw [if_pos (by rw [e]; simp)] at hok
+      cases hok
+  have hnn : W mem (L.A (.next n)) = 0#64 := by rw [hR (.next n) hn]; simp only [val, hnone, encN]
+  have hn' : L.ok (.next n) := hn
+  have g0 := fun h3 => insert_generated (L.A (.head l)) (L.A (.next n)) mem (L.A (.head l)) (A_sep L hL _ _ hl hl)
+    (by rw [A_tail L hL l hl]; exact A_sep L hL (.head l) (.tail l) hl hl) h3 (A_sep L hL (.head l) _ hl hn') hnn
   unfold Librfn.Model.ListHeap.insert at hok
   split at hok
   · cases hok
@@ -325,7 +337,7 @@ theorem insert_tie (L : Lay) (hL : L.WF) (mem : Mem) (h : Heap) (hR : Rep L mem 
       · exact (g0 (by rw [hz]; rfl)).2.1
       · intro c hc
         have key := (insert_generated (L.A (.head l)) (L.A (.next n)) mem (L.A c) (A_sep L hL _ _ hc hl)
-          (by rw [A_tail L hL l hl]; exact A_sep L hL c (.tail l) hc hl) (by rw [hz]; rfl)).2.2
+          (by rw [A_tail L hL l hl]; exact A_sep L hL c (.tail l) hc hl) (by rw [hz]; rfl) (A_sep L hL c _ hc hn') hnn).2.2
         rw [key, hz, A_tail L hL l hl, val_setTail, val_setHead, hR c hc]
         simp only [A_inj L hL c (.tail l) hc hl, A_inj L hL c (.head l) hc hl, ne_eq, not_true_eq_false, if_false, encT, encN]
     | some x =>
@@ -348,7 +360,7 @@ theorem insert_tie (L : Lay) (hL : L.WF) (mem : Mem) (h : Heap) (hR : Rep L mem 
           closed_setTail L _ (closed_setNext L h hC t _ (by intro m e; cases e; exact hn)) l _ hn⟩
         intro c hc
         have key := (insert_generated (L.A (.head l)) (L.A (.next n)) mem (L.A c) (A_sep L hL _ _ hc hl)
-          (by rw [A_tail L hL l hl]; exact A_sep L hL c (.tail l) hc hl) (hs c hc)).2.2
+          (by rw [A_tail L hL l hl]; exact A_sep L hL c (.tail l) hc hl) (hs c hc) (A_sep L hL c _ hc hn') hnn).2.2
         rw [key, htl, A_tail L hL l hl, val_setTail, val_setNext, hR c hc]
         simp only [A_inj L hL c (.tail l) hc hl, A_inj L hL c (.next t) hc htk, ne_eq, hnz, not_false_eq_true, if_true, encT, encN]
 
@@ -359,8 +371,16 @@ theorem push_tie (L : Lay) (hL : L.WF) (mem : Mem) (h : Heap) (hR : Rep L mem h)
     Rep L (list_push (L.A (.head l)) (L.A (.next n)) mem).mem h' ∧ Closed L h' := by
   have hHead := hR (.head l) hl
   simp only [val] at hHead
+  have hnone : h.next n = none := by
+    cases e : h.next n with
+    | none => rfl
+    | some m =>
+      unfold push at hok
+      rw [if_pos (by rw [e]; simp)] at hok
+      cases hok
+  have hnn : W mem (L.A (.next n)) = 0#64 := by rw [hR (.next n) hn]; simp only [val, hnone, encN]
   have gen := fun c (hc : L.ok c) => push_generated (L.A (.head l)) (L.A (.next n)) mem (L.A c) (A_sep L hL _ _ hc hl)
-    (by rw [A_tail L hL l hl]; exact A_sep L hL c (.tail l) hc hl) (A_sep L hL c (.next n) hc hn)
+    (by rw [A_tail L hL l hl]; exact A_sep L hL c (.tail l) hc hl) (A_sep L hL c (.next n) hc hn) hnn
   refine ⟨(gen (.head l) hl).1, (gen (.head l) hl).2.1, ?_⟩
   unfold push at hok
   split at hok
@@ -538,7 +558,7 @@ theorem load_ok (L : Lay) (h : Heap) (hC : Closed L h) (k : Link) (hk : okLink L
 /-- **tie T, `list_iterator_insert`** -/
 theorem iterator_insert_tie (L : Lay) (hL : L.WF) (mem : Mem) (h : Heap) (hR : Rep L mem h) (hC : Closed L h)
     (ia : BitVec 64) (hF : Foreign L ia) (it : Iter) (hI : IterAt L mem ia it) (hk : okLink L it.prevnext) (hli : L.okL it.list)
-    (n : Node) (hn : L.okN n) :
+    (n : Node) (hn : L.okN n) (hnone : h.next n = none) (hself : cellOf it.prevnext ≠ .next n) :
     (list_iterator_insert ia (L.A (.next n)) mem).ub = false ∧ (list_iterator_insert ia (L.A (.next n)) mem).exh = false ∧
     Rep L (list_iterator_insert ia (L.A (.next n)) mem).mem (iteratorInsert h it n) ∧ Closed L (iteratorInsert h it n) ∧
     IterAt L (list_iterator_insert ia (L.A (.next n)) mem).mem ia it := by
@@ -554,6 +574,8 @@ theorem iterator_insert_tie (L : Lay) (hL : L.WF) (mem : Mem) (h : Heap) (hR : R
     iterator_insert_generated ia (L.A (.next n)) mem p (by rw [hpn]; exact h1) h2 (by rw [hlt, h3]; simp)
       (by rw [hpn, sep_comm]; exact hF.s8 _ hkc) (by rw [sep_comm]; exact hF.s8 _ hn')
       (by rw [hpn]; exact fun e => hF.n8 _ hkc e.symm) (fun e => hF.n8 _ hn' e.symm)
+      (by rw [hR (.next n) hn]; simp only [val, hnone, encN]) (by rw [hpn]; exact A_sep L hL _ _ hkc hn')
+      (by rw [hpn, Ne, A_inj L hL _ _ hkc hn']; exact hself)
   have gc := fun c (hc : L.ok c) => gen (L.A c) (A_sep L hL c _ hc hkc) (A_sep L hL c _ hc hn') (A_sep L hL c _ hc ht')
   have g0 := gc _ hn'
   have hcv : ∀ m, load h it.prevnext = some m → L.okN m := fun m e => load_ok L h hC _ hk m e
